@@ -37,6 +37,18 @@ def run(R):
                     h["outlen"] = outlen
                 hs.append(h)
                 R.count((alg, outlen, kl, ml), trivial=False)
+    # an abandoned message: input, reset (without result), then the real message; and reuse after a result
+    for alg, outlen in algs:
+        b = hc.block_of(alg)
+        key = vlib.prng_bytes(R.seed, "c08rkey/" + alg, 20)
+        msg = vlib.prng_bytes(R.seed, "c08rmsg/" + alg, b + 9)
+        ev = [{"op": "new"}, {"op": "input", "x": 1, "data": msg[:b - 3]}, {"op": "reset", "x": 1}, {"op": "input", "x": 1, "data": msg[:7]}, {"op": "result", "x": 1},
+              {"op": "reset", "x": 1}, {"op": "input", "x": 1, "data": msg}, {"op": "raw_result", "x": 1}]
+        h = {"id": R.next_id(), "cls": "mac", "mac": "hmac", "alg": alg, "key": key, "ev": ev}
+        if outlen:
+            h["outlen"] = outlen
+        hs.append(h)
+        R.count((alg, outlen, "reset-reuse"))
     R.rule = ("[Hmac::new(digest, key), output_bytes, input x (1..3 seeded cuts), result|raw_result] per (digest, key length, message length): 16 fixed digests + BLAKE2b-64/32/1 + BLAKE2s-32/16; "
               "key lengths " + ("{0,1,B-1,B,B+1,2B+7,seeded}" if thorough else "{B-1,B,B+1} + one seeded of {0,1,2B+7,random}") + "; message lengths from {0,1,B-1,B,B+1,2B+3}")
     res = R.conform("TraceMac", hs, cost=mc.cost_mac, describe=mc.describe, timeout=3000 if thorough else 900)
